@@ -74,8 +74,15 @@ def hDedupShuffle : Handler := handler fun args =>
     pure (SExp.ofNatss (out.map (·.map (·.2))))
   | _ => none
 
+/-- `(disk-shuffle (arrival…) ((targets…)…) n)` ↦ global row positions per output partition -/
+def hDiskShuffle : Handler := handler fun args =>
+  match args with
+  | [arr, ps, n] => do
+    pure (SExp.ofNatss ((diskShuffle (← arr.toNats?) (numberNat (← ps.toNatss?)) (← n.toNat?)).map (·.map (·.2))))
+  | _ => none
+
 def handlers : List (String × Handler) :=
   [("sort-values", hSortValues), ("calc-presorted", hCalcPresorted), ("dedup", hDedup), ("dedup-tree", hDedupTree),
-   ("dedup-shuffle", hDedupShuffle)]
+   ("dedup-shuffle", hDedupShuffle), ("disk-shuffle", hDiskShuffle)]
 
 end Dask.SortValuesIO
